@@ -73,8 +73,64 @@ def additivity_job(job):
     return out
 
 
+PARSE_CFG = """
+INIT Init
+NEXT Next
+INVARIANT Sound
+INVARIANT EmitCase
+"""
+
+
+def parse_job(case):
+    """accept / reject table of the input rules, replayed into compute_dynamics"""
+    import oqupy
+    from oqupy.process_tensor import SimpleProcessTensor, TrivialProcessTensor
+    dtv = {0: None, 1: 0.25, 2: 0.5}
+    pts = []
+    for p in probes.norm_seq(case["pts"]):
+        d = p["dim"]
+        if p["len"] == 99:
+            pts.append(TrivialProcessTensor(hilbert_space_dimension=d))
+            continue
+        pt = SimpleProcessTensor(d, dt=dtv[p["dt"]])
+        for k in range(p["len"]):
+            pt.set_mpo_tensor(k, np.eye(d * d).reshape(1, 1, d * d, d * d))
+        pt.compute_caps()
+        pts.append(pt)
+    kw = {}
+    if case["callerDt"]:
+        kw["dt"] = dtv[case["callerDt"]]
+    if case["numSteps"]:
+        kw["num_steps"] = case["numSteps"]
+    want = case["verdict"]
+    rho0 = np.array([[0.6, 0.2], [0.2, 0.4]], dtype=complex)
+    try:
+        dyn = oqupy.compute_dynamics(oqupy.System(0.3 * np.array([[0, 1], [1, 0]])), initial_state=rho0,
+                                     process_tensor=pts if pts else None, start_time=0.5, progress_type="silent", **kw)
+        ok = True
+    except Exception as ex:  # pylint: disable=broad-except
+        ok = False
+        why = "%s: %s" % (type(ex).__name__, str(ex)[:80])
+    if ok != want["ok"]:
+        return [{"what": "accepted" if ok else "rejected", "expected_ok": want["ok"], "detail": "" if ok else why}]
+    if ok:
+        t = np.array(dyn.times)
+        if len(t) != want["n"] + 1 or abs((t[1] - t[0]) - dtv[want["dt"]]) > 1e-12:
+            return [{"what": "effective-parameters", "expected": [want["n"], dtv[want["dt"]]],
+                     "observed": [len(t) - 1, float(t[1] - t[0])]}]
+    return []
+
+
 def run(ctx):
     quick = ctx.tier == "quick"
+    pr = ctx.tlc("InputParse", PARSE_CFG, label="input rules for lists of process tensors", workers=4,
+                 constants={"MaxPTs": "2" if quick else "3", "Emit": "TRUE"})
+    pcases = pr.cases if quick else pr.cases[::3]
+    for c, mm in zip(pcases, core.pmap(parse_job, pcases, chunksize=16)):
+        cid = {"pts": c["pts"], "caller_dt": c["callerDt"], "num_steps": c["numSteps"]}
+        ctx.case(cid, nontrivial=len(c["pts"]) > 0)
+        for x in mm:
+            ctx.violation("C03:input-rules:%s" % x["what"], "%s: %s" % (cid, x), {"parse": c})
     all_ctl = "{{}}"
     ctl_sets = tla_set([
         "{}",
@@ -172,7 +228,9 @@ def run(ctx):
 def replay(ctx, rep):
     core._init_worker()
     c = rep["case"]
-    if "additivity" in c:
+    if "parse" in c:
+        mm = parse_job(c["parse"])
+    elif "additivity" in c:
         mm = additivity_job(tuple(c["additivity"]))
     else:
         mm = eng.run_case({"case": c["case"], "variant": c["variant"], "seed": rep.get("seed", 0)})
